@@ -744,7 +744,10 @@ fn sugar_atoms(p: &Prog, rels: &[usize], atoms_left: usize, max_sugar: usize, pr
             let mut toks: Vec<Tok> = vec![Tok::New];
             for v in prev { toks.push(Tok::Old(*v)); }
             if sugar < max_sugar {
-                for v in here.iter() { toks.push(Tok::Rep(*v)); toks.push(Tok::ExprSame(*v)); }
+                // (a variable bound by a `?pattern` of the same clause is not repeated in that clause: Ascent rejects
+                // `b(?x, x)` as shadowing, and the documentation does not say what it should mean)
+                let pat_bound: Vec<Var> = acc.iter().filter_map(|a| if let Arg::PatBind(v) = a { Some(*v) } else { None }).collect();
+                for v in here.iter() { if pat_bound.contains(v) { continue; } toks.push(Tok::Rep(*v)); toks.push(Tok::ExprSame(*v)); }
                 toks.push(Tok::Wild); toks.push(Tok::Const); toks.push(Tok::PatBind); toks.push(Tok::PatConst);
                 if let Some(v) = prev.last() { toks.push(Tok::ExprPrev(*v)); }
             }
